@@ -171,6 +171,18 @@ def r09_inventory(ctx, rep, roles, P="C09", ent=None, rule_id="R09.1", extra_tab
             if alt in table and seen.get(alt, 0) < ((extra_counts or {}).get(alt, CONFIRMED.get(alt)) or 0):
                 key = alt
                 row = table[alt]
+        if row is None and kind in ("call:expect", "call:unwrap") and ensured_lookup(fx, fn_rows, s):
+            # `map.get_mut(k).expect(..)` on paths where `map.contains_key(k)` held or `map.insert(k.clone(), ..)` just ran
+            classes["guarded:ensured-lookup"] = classes.get("guarded:ensured-lookup", 0) + 1
+            rep.obligation(True, "", "", sample="%s: lookup of a key that was just checked or inserted" % s.key())
+            continue
+        if row is None and kind == "diverge:panic":
+            # `match x.checked_op() { Some(v) => v, None => panic!("same message") }` is `.expect("same message")` spelled out
+            for alt in ((key[0], "call:expect"), (key[0], "call:unwrap")):
+                if alt in table and table[alt][0] != G and seen.get(alt, 0) < ((extra_counts or {}).get(alt, CONFIRMED.get(alt)) or 0):
+                    key = alt
+                    row = table[alt]
+                    break
         if row is None:
             rep.obligation(False, "%s/%s/unlisted-panic-site/%s/%s" % (P, rule_id, owner, kind),
                            "panic-capable site %s (%s) is reachable from the datagram path and is not discharged" % (s.key(), s.detail[-60:]),
@@ -197,6 +209,46 @@ def r09_inventory(ctx, rep, roles, P="C09", ent=None, rule_id="R09.1", extra_tab
     rep.floor("panic-sites", len(sites), 40)
     rep.instance(len(sites))
     return sites
+
+
+def ensured_lookup(fx, fn_rows, s):
+    """every path of s.fn through this unwrap/expect applies it to `M.get(K)` / `M.get_mut(K)` after `M.contains_key(K)` was true
+    or `M.insert(clone of K, ..)` ran, with no removal from M in between"""
+    eng, rows = fn_rows(fx.root_fn(s.fn)) if fx.fns[s.fn].get("parent") is None else (None, None)
+    if not rows:
+        return False
+    short = lambda n: sym.strip_all_generics(n).split("::")[-1]
+    f_ = lambda t, row: sym.fmt(T.resolve_locals(eng, row.store, t)).lstrip("&")
+    seen_any = False
+    for row in rows:
+        calls = row.calls()
+        for i, e in enumerate(calls):
+            if short(e[1]) not in ("expect", "unwrap") or "Option" not in e[1] or not e[3] or e[3][1] != s.line:
+                continue
+            seen_any = True
+            src = T.resolve_locals(eng, row.store, e[2][0])
+            if src[0] != "call" or short(src[1]) not in ("get", "get_mut") or len(src[2]) != 2:
+                return False
+            m, k = f_(src[2][0], row), f_(src[2][1], row)
+            gi = max([j for j, g in enumerate(calls[:i]) if short(g[1]) in ("get", "get_mut") and f_(g[2][0], row) == m] or [-1])
+            ok = False
+            for c in row.cond:
+                if c[0] == "truth" and c[2] is True and c[1][0] == "call" and short(c[1][1]) == "contains_key" and len(c[1][2]) == 2 \
+                        and f_(c[1][2][0], row) == m and f_(c[1][2][1], row) == k:
+                    ok = True
+            last_mut = None
+            for j, g in enumerate(calls[:gi if gi >= 0 else i]):
+                if g[2] and f_(g[2][0], row) == m and short(g[1]) in ("insert", "remove", "remove_entry", "clear", "retain", "pop_first", "pop_last", "split_off", "append"):
+                    last_mut = g
+            if last_mut is not None:
+                if short(last_mut[1]) == "insert":
+                    kk = sym.fmt(T.resolve_locals(eng, row.store, last_mut[2][1]))
+                    ok = kk.split("#")[0].endswith("Clone>::clone(&%s)" % k) or kk.lstrip("&") == k
+                else:
+                    ok = False
+            if not ok:
+                return False
+    return seen_any
 
 
 def overflow_type(fx, s):
